@@ -24,7 +24,8 @@ RULE = ("a case is a history over the names a,b,c (+ core.Dataset): create (plai
         "transaction on core.Dataset (incl. removal), batches and multi-dataset transactions over a 3-6 id pool (repeated ids in a "
         "batch, identical re-posts, ids known from other datasets, ids first seen as reference targets), and forced two-actor "
         "schedules (writer paused between reading and storing its meta entity while a second writer / delete / rename / "
-        "public-namespace update runs); a `details` snapshot after about every second op and at the end; non-trivial = the history "
+        "public-namespace update runs; writer paused before its id commit while another writer's batch is accepted or rejected, "
+        "then its entities stored again); batches the store rejects (nil reference); a `details` snapshot after about every second op and at the end; non-trivial = the history "
         "has a rename, a delete+re-create, an in-batch repeat, a transaction or a forced schedule; distinct = distinct history JSON")
 TRUSTED = [
     "meta entities are abstracted to (name, kind code, public-namespaces code, items, deleted); the proxy/virtual configuration "
@@ -105,8 +106,15 @@ def ents_term(ents, lens):
     return vlib.coq_list([sc.ent_term(CODES, e, l) for e, l in zip(ents, lens)])
 
 
+def rejected(op):
+    """a batch holding an entity the store rejects (nil reference added by the driver): no effect on anything"""
+    return op["op"] == "batch" and any(e.get("bad") and not e.get("deleted") for e in op["ents"])
+
+
 def cop_term(op, lens):
     k = op["op"]
+    if rejected(op):
+        return "OBatch %d []" % ncode(op["ds"])
     if k == "create":
         return "OCreate %d %s" % (ncode(op["ds"]), settings_term(*set_of(op.get("set"))))
     if k == "delete":
@@ -138,9 +146,9 @@ def snapshot_term(names, oo):
             rset = settings_term(kcode(d.get("reckind", "plain")), pcode(d.get("recpubns")))
         else:
             rset = settings_term(0, None)
-        dss.append("{| o_name := %d; o_exists := %s; o_rset := %s; o_versions := %s; o_distinct := %s; o_det_found := %s; o_det_items := %s |}" % (
+        dss.append("{| o_name := %d; o_exists := %s; o_rset := %s; o_versions := %s; o_distinct := %s; o_latest := %s; o_det_found := %s; o_det_items := %s |}" % (
             ncode(n), vlib.coq_bool(d.get("exists", False)), rset, vlib.coq_list([meta_term(m) for m in d.get("metas", [])]),
-            vlib.zlit(d.get("distinct", 0)), vlib.coq_bool(d.get("detfound", False)),
+            vlib.zlit(d.get("distinct", 0)), vlib.zlit(d.get("latestcount", 0)), vlib.coq_bool(d.get("detfound", False)),
             vlib.zlit(d.get("detitems", 0) if d.get("exists") else 0)))
     bad = bool(oo.get("err") or oo.get("panic"))
     return "{| o_names := %s; o_live := %s; o_ds := %s |}" % (
@@ -162,7 +170,7 @@ def term(c, o):
         elif k == "restart":
             continue
         elif k == "concurrent_pair":
-            terms.append("SPair %d %s (%s) %s %s" % (ncode(op["ds"]), ents_term(op["ents"], oo.get("lens")),
+            terms.append("%s %d %s (%s) %s %s" % ("SPairC" if op.get("at") == "commit" else "SPair", ncode(op["ds"]), ents_term(op["ents"], oo.get("lens")),
                                                      cop_term(op["b"], oo.get("blens")), vlib.coq_bool(oo.get("reached", False)),
                                                      vlib.coq_bool(oo.get("bblocked", False))))
         else:
@@ -226,11 +234,32 @@ def witness_cases():
             {"op": "concurrent_pair", "ds": "a", "ents": [E("e6")], "b": {"op": "setpubns", "ds": "a", "pubns": ["http://x/"], "via": "batch"}}, DET,
             {"op": "concurrent_pair", "ds": "a", "ents": [E("e7")], "b": {"op": "rename", "ds": "a", "to": "c"}}, DET,
             {"op": "concurrent_pair", "ds": "b", "ents": [E("e8")], "b": {"op": "delete", "ds": "b"}}, DET]},
+        # writer held before its id commit while another writer's batch to a different dataset is rejected / accepted;
+        # then the same entities are stored again: counted once, one latest version per id
+        {"datasets": ["a", "b"], "names": ALLN, "ops": [
+            {"op": "concurrent_pair", "at": "commit", "ds": "a", "ents": [E("e1"), E("e2")],
+             "b": {"op": "batch", "ds": "b", "ents": [dict(E("e3"), bad=True)]}}, DET,
+            {"op": "batch", "ds": "a", "ents": [E("e1"), E("e2")]},
+            {"op": "batch", "ds": "b", "ents": [E("e3")]}, DET,
+            {"op": "concurrent_pair", "at": "commit", "ds": "a", "ents": [E("e4", refs={"r1": "e5"})],
+             "b": {"op": "batch", "ds": "b", "ents": [E("e4"), E("e5")]}}, DET,
+            {"op": "batch", "ds": "a", "ents": [E("e4", refs={"r1": "e5"}), E("e5")]},
+            {"op": "batch", "ds": "b", "ents": [dict(E("e6"), bad=True), E("e7")]}, DET,
+            {"op": "concurrent_pair", "at": "commit", "ds": "b", "ents": [E("e8")],
+             "b": {"op": "batch", "ds": "b", "ents": [E("e9")]}}, DET]},
     ]
 
 
 def corpus_cases():
     return []
+
+
+def make_bad(rng, ents):
+    """mark one entity so that the store rejects the batch (a nil reference on a non-deleted entity: the reference
+    loop is not run for deleted ones)"""
+    e = ents[rng.below(len(ents))]
+    e["bad"] = True
+    e.pop("deleted", None)
 
 
 def gen_write(rng, live, pool, memo):
@@ -255,7 +284,10 @@ def gen_case(rng, nops, pairs=True):
     for _ in range(nops):
         r = rng.below(20)
         if r < 9 and live:
-            ops.append(gen_write(rng, live, pool, memo))
+            w = gen_write(rng, live, pool, memo)
+            if w["op"] == "batch" and rng.chance(1, 12):
+                make_bad(rng, w["ents"])     # rejected by the store: no effect
+            ops.append(w)
         elif r < 11:
             n = rng.choice(NAMES)                      # create / re-create (also of an existing name: refused)
             ops.append({"op": "create", "ds": n, "set": rng.choice(SETTINGS)})
@@ -276,6 +308,19 @@ def gen_case(rng, nops, pairs=True):
                     memo[(m, k[1])] = memo.pop(k)
         elif r < 17 and live:
             ops.append({"op": "setpubns", "ds": rng.choice(live), "pubns": rng.choice(PUBVALS), "via": rng.choice(["batch", "batch", "txn"])})
+        elif r < 18 and live and pairs and rng.chance(1, 2):
+            # writer 1 held before its id commit; writer 2: accepted or rejected batch (mostly to another dataset);
+            # afterwards writer 1's entities are stored again
+            n = rng.choice(live)
+            a = {"op": "batch", "ds": n, "ents": sc.gen_batch(rng, pool, memo, n, False)}
+            m = rng.choice(live)
+            b = {"op": "batch", "ds": m, "ents": sc.gen_batch(rng, pool, memo, m, False)}
+            if rng.chance(1, 2):
+                make_bad(rng, b["ents"])
+            ops.append({"op": "concurrent_pair", "at": "commit", "ds": n, "ents": a["ents"], "b": b})
+            ops.append({"op": "batch", "ds": n, "ents": json.loads(json.dumps(a["ents"]))})
+            if rng.chance(1, 2):
+                ops.append({"op": "batch", "ds": m, "ents": [{k: v for k, v in e.items() if k != "bad"} for e in b["ents"]]})
         elif r < 18 and live and pairs:
             n = rng.choice(live)
             a = {"op": "batch", "ds": n, "ents": sc.gen_batch(rng, pool, memo, n, False)}
@@ -337,8 +382,8 @@ def _spec_failures(c, o):
                 if last is None or last["deleted"]:
                     found.add("other")
                     continue
-                if last["items"] != d["distinct"]:
-                    found.add("F19c" if d["name"] == CORE else "other")
+                if last["items"] != d["distinct"] or d.get("latestcount", 0) != d["distinct"]:
+                    found.add("F19c" if d["name"] == CORE and d.get("latestcount", 0) == d["distinct"] else "counter")
                 mp = last["pubns"] if last["haspub"] else []
                 if list(mp) != list(d.get("recpubns") or []):
                     found.add("pub")
@@ -350,7 +395,9 @@ def _spec_failures(c, o):
 
 def attribute(c, o):
     f = _spec_failures(c, o)
-    has_pair = any(op["op"] == "concurrent_pair" for op in c["ops"])
+    has_pair = any(op["op"] == "concurrent_pair" and op.get("at") != "commit" for op in c["ops"])
+    if "counter" in f:
+        return None
     if "other" in f:
         return "F19b" if has_pair else None
     if "F19b" in f:
